@@ -158,6 +158,9 @@ let () =
             let out = if rd = "B" then decode sc m icb (List.concat ss) else decode_wire sc m icb ss in
             let (mres, maux) = string_of_out out in
             bump ("D" ^ rd); bump ("res:" ^ (if String.length res >= 2 && String.sub res 0 2 = "ok" then "ok" else res));
+            (* allocation upper bound of the model for this input (BufferReader cases of the C04 stream) *)
+            if rd = "B" && String.length tag > 6 && (try ignore (Str.search_forward (Str.regexp_string ";alloc=") tag 0); true with Not_found -> false) then
+              Printf.printf "ALLOC %d %s\n" !lineno (dec_of_n (decode_alloc sc m icb (List.concat ss)));
             if mres <> res then diverge ("DEC" ^ rd) mres res
             else if aux <> "-" && maux <> aux then diverge ("CTX" ^ rd) maux aux;
             if res = "panic" || res = "timeout" || res = "oom" then oracle ("CRASH:" ^ res) tag;
